@@ -21,10 +21,11 @@ RULE = (
     "modules (positional, keyword, mixed, defaults omitted, *seq, **map, qualified) x changer sequence of length 1-2 from "
     "Normalizer, Reorderer(+autodef), Adder(default|value), Remover, DefaultInliner - only sequences whose resulting header is legal; "
     "non-trivial = >= 3 call sites in >= 2 shapes with a keyword call and a changer other than Normalizer alone; distinct by case hash"
+    "; further shapes: a call nested in another call's arguments, a positional-only prefix (with Normalizer / DefaultInliner only), a constructor of a nested class next to a top-level class of the same name; one case in six is an IntroduceParameter request with a behavioural oracle"
 )
 ASSUMPTIONS = [
     "the target's body only observes its parameters (prints locals()), so any parameter may be removed",
-    "no annotations, keyword-only or positional-only parameters (functionutils carries a FIXME for them)",
+    "no annotations or keyword-only parameters (functionutils carries a FIXME for them); a positional-only prefix only with changers that keep the order",
 ]
 BUDGET = {"quick": (30000, 240), "thorough": (400000, 2700)}
 
